@@ -49,12 +49,41 @@ type Bulk struct {
 	Seed   uint64 `json:"seed"`
 	MinLen int    `json:"minlen"`
 	MaxLen int    `json:"maxlen"`
+	Prefix string `json:"prefix,omitempty"` // put before every name (keeps the names of two Bulks apart)
 }
 
-// Mut changes the directory before a pass starts.
+// Drop removes N names of the sorted listing starting at index From mod n
+// (wrapping around); All removes every entry.
+type Drop struct {
+	From int  `json:"from,omitempty"`
+	N    int  `json:"n,omitempty"`
+	All  bool `json:"all,omitempty"`
+}
+
+// Mut changes the directory before a pass starts. Order: Remove, Drop, Add,
+// Adds, AddBulk; a name that exists already is not created again.
 type Mut struct {
-	Add    *Ent `json:"add,omitempty"`
-	Remove int  `json:"remove,omitempty"` // >0: remove the (Remove-1 mod n)-th name in sorted order
+	Add     *Ent  `json:"add,omitempty"`
+	Remove  int   `json:"remove,omitempty"` // >0: remove the (Remove-1 mod n)-th name in sorted order
+	Drop    *Drop `json:"drop,omitempty"`
+	Adds    []Ent `json:"adds,omitempty"`
+	AddBulk *Bulk `json:"addbulk,omitempty"`
+}
+
+// adds returns everything the mutation may create.
+func (m *Mut) adds() []Ent {
+	if m == nil {
+		return nil
+	}
+	var out []Ent
+	if m.Add != nil {
+		out = append(out, *m.Add)
+	}
+	out = append(out, m.Adds...)
+	if m.AddBulk != nil {
+		out = append(out, m.AddBulk.ents()...)
+	}
+	return out
 }
 
 // Pass is one listing that starts at offset 0.
@@ -75,6 +104,10 @@ type Case struct {
 	Bulk     *Bulk  `json:"bulk,omitempty"`
 	Passes   []Pass `json:"passes"`
 	Desc     string `json:"desc,omitempty"`
+
+	// kind "conc": several directories of one server listed at the same time
+	Dirs  []DirSpec  `json:"dirs,omitempty"`
+	Conns []ConnSpec `json:"conns,omitempty"`
 }
 
 // ---------------------------------------------------------------------------
@@ -173,7 +206,7 @@ func (b *Bulk) ents() []Ent {
 	out := make([]Ent, 0, b.N)
 	for i := 0; i < b.N; i++ {
 		h := splitmix(b.Seed ^ uint64(i)*0x100000001B3)
-		name := strconv.FormatInt(int64(i), 36) + "-"
+		name := b.Prefix + strconv.FormatInt(int64(i), 36) + "-"
 		want := b.MinLen
 		if b.MaxLen > b.MinLen {
 			want += int(h % uint64(b.MaxLen-b.MinLen+1))
@@ -256,13 +289,46 @@ func applyMut(dir string, m *Mut) error {
 			}
 		}
 	}
-	if m.Add != nil {
-		if _, err := os.Lstat(filepath.Join(dir, m.Add.Name)); err == nil {
-			return nil // already there: the mutation is a no-op
+	if d := m.Drop; d != nil {
+		names, err := listNames(dir)
+		if err != nil {
+			return err
 		}
-		return mkEnt(dir, *m.Add)
+		for _, n := range dropped(names, d) {
+			if err := os.RemoveAll(filepath.Join(dir, n)); err != nil {
+				return err
+			}
+		}
+	}
+	for _, e := range m.adds() {
+		if _, err := os.Lstat(filepath.Join(dir, e.Name)); err == nil {
+			continue // already there: no-op
+		}
+		if err := mkEnt(dir, e); err != nil {
+			return err
+		}
 	}
 	return nil
+}
+
+// dropped returns the names (of a sorted listing) a Drop removes.
+func dropped(names []string, d *Drop) []string {
+	n := len(names)
+	if d == nil || n == 0 {
+		return nil
+	}
+	if d.All || d.N >= n {
+		return names
+	}
+	var out []string
+	from := d.From % n
+	if from < 0 {
+		from += n
+	}
+	for i := 0; i < d.N; i++ {
+		out = append(out, names[(from+i)%n])
+	}
+	return out
 }
 
 // ---------------------------------------------------------------------------
@@ -432,109 +498,155 @@ func splitRecords(d []byte, dotu bool) ([]*ref9p.Stat, []int, error) {
 	return recs, sizes, nil
 }
 
-// runPass performs one listing from offset 0 and judges every reply.
+// lister is the state of one listing that starts at offset 0: next says
+// which Tread comes next, feed judges the reply to it.
+type lister struct {
+	s        *rawSess
+	fid      uint32
+	p        *Pass
+	expected []string
+	exp      map[string]bool
+	seen     map[string]bool
+	largest  int
+	where    string
+	counts   []uint32
+	limit    int
+	off      uint64
+	failed   []uint32 // counts answered with Rerror at the current offset
+	idx      int
+	cnt      uint32 // count of the Tread announced by next
+	ps       passStats
+}
+
 // largest is the size of the largest record the directory can hold by the
 // calibrated arithmetic (precondition of "count large enough").
-func (s *rawSess) runPass(p *Pass, expected []string, largest int, where string) (passStats, error) {
-	var ps passStats
-	exp := make(map[string]bool, len(expected))
+func (s *rawSess) newLister(fid uint32, p *Pass, expected []string, largest int, where string) *lister {
+	l := &lister{s: s, fid: fid, p: p, expected: expected, largest: largest, where: where}
+	l.exp = make(map[string]bool, len(expected))
 	for _, n := range expected {
-		exp[n] = true
+		l.exp[n] = true
 	}
-	seen := make(map[string]bool, len(expected))
-	counts := p.Counts
-	if len(counts) == 0 {
-		counts = []uint32{s.max}
+	l.seen = make(map[string]bool, len(expected))
+	l.counts = p.Counts
+	if len(l.counts) == 0 {
+		l.counts = []uint32{s.max}
 	}
-	limit := 4*len(expected) + 64
-	var off uint64
-	var failed []uint32 // counts answered with Rerror at the current offset
-	idx := 0
+	l.limit = 4*len(expected) + 64
+	return l
+}
+
+// next returns offset and count of the next Tread; done means the pass is
+// over without one (abandoned mid-listing; the next pass restarts at 0).
+func (l *lister) next() (off uint64, cnt uint32, done bool, err error) {
+	s, p := l.s, l.p
+	if p.MaxReads > 0 && l.ps.reads >= p.MaxReads {
+		return 0, 0, true, nil
+	}
+	if l.ps.reads >= l.limit {
+		return 0, 0, true, viol("%s: listing of %d entries not finished after %d reads", l.where, len(l.expected), l.ps.reads)
+	}
+	if len(l.failed) == 0 {
+		cnt = l.counts[l.idx%len(l.counts)]
+		l.idx++
+		if cnt > s.max {
+			cnt = s.max
+		}
+	} else {
+		last := l.failed[len(l.failed)-1]
+		retry := p.Retry
+		if retry == 0 || retry > s.max {
+			retry = s.max
+		}
+		switch {
+		case retry > last:
+			cnt = retry
+		case s.max > last:
+			cnt = s.max
+		default:
+			// even the largest legal count was refused
+			if int(s.max) >= l.largest {
+				return 0, 0, true, viol("%s: Tread offset=%d count=%d (msize-24) answered with Rerror although no entry exceeds %d bytes", l.where, l.off, last, l.largest)
+			}
+			return 0, 0, true, hErr("%s: msize-24=%d is smaller than the largest entry (%d): precondition not met by the generator", l.where, s.max, l.largest)
+		}
+	}
+	l.cnt = cnt
+	l.ps.reads++
+	return l.off, cnt, false, nil
+}
+
+// feed judges the reply to the Tread announced by next; done means the
+// zero-length reply that ends a complete listing was seen.
+func (l *lister) feed(r *ref9p.Msg) (done bool, err error) {
+	s, where, off, cnt := l.s, l.where, l.off, l.cnt
+	if r.Type == ref9p.Rerror {
+		l.ps.errors++
+		l.failed = append(l.failed, cnt)
+		return false, nil
+	}
+	if r.Type != ref9p.Rread {
+		return true, hErr("%s: Tread answered with %s", where, ref9p.TypeName(r.Type))
+	}
+	d := r.Data
+	if len(d) > int(cnt) {
+		return true, viol("%s: Tread offset=%d count=%d returned %d bytes", where, off, cnt, len(d))
+	}
+	if len(d) == 0 {
+		if len(l.failed) > 0 {
+			return true, viol("%s: Tread offset=%d count=%v answered with Rerror, then count=%d with a zero-length Rread: no entry was too large", where, off, l.failed, cnt)
+		}
+		var missing []string
+		for _, n := range l.expected {
+			if !l.seen[n] {
+				missing = append(missing, n)
+			}
+		}
+		if len(missing) > 0 {
+			return true, viol("%s: zero-length Rread at offset=%d count=%d after %d of %d entries; never returned: %s", where, off, cnt, len(l.seen), len(l.expected), someNames(missing))
+		}
+		l.ps.complete = true
+		return true, nil
+	}
+	recs, sizes, derr := splitRecords(d, s.dotu)
+	if derr != nil {
+		return true, viol("%s: Tread offset=%d count=%d: payload of %d bytes is not a sequence of whole stat records (dotu=%v): %v", where, off, cnt, len(d), s.dotu, derr)
+	}
+	for _, fc := range l.failed {
+		if int(fc) >= sizes[0] {
+			return true, viol("%s: Tread offset=%d count=%d answered with Rerror although the next entry %q is only %d bytes", where, off, fc, recs[0].Name, sizes[0])
+		}
+	}
+	l.failed = l.failed[:0]
+	for _, st := range recs {
+		if !l.exp[st.Name] {
+			return true, viol("%s: Tread offset=%d count=%d returned an entry %q that os.ReadDir does not list", where, off, cnt, st.Name)
+		}
+		if l.seen[st.Name] {
+			return true, viol("%s: Tread offset=%d count=%d returned entry %q a second time in one listing", where, off, cnt, st.Name)
+		}
+		l.seen[st.Name] = true
+	}
+	l.ps.nonEmpty++
+	l.ps.records += len(recs)
+	l.off += uint64(len(d))
+	return false, nil
+}
+
+// runPass performs one listing from offset 0 and judges every reply.
+func (s *rawSess) runPass(p *Pass, expected []string, largest int, where string) (passStats, error) {
+	l := s.newLister(s.fid, p, expected, largest, where)
 	for {
-		if p.MaxReads > 0 && ps.reads >= p.MaxReads {
-			return ps, nil // abandoned mid-listing; the next pass restarts at 0
-		}
-		if ps.reads >= limit {
-			return ps, viol("%s: listing of %d entries not finished after %d reads", where, len(expected), ps.reads)
-		}
-		var cnt uint32
-		if len(failed) == 0 {
-			cnt = counts[idx%len(counts)]
-			idx++
-			if cnt > s.max {
-				cnt = s.max
-			}
-		} else {
-			last := failed[len(failed)-1]
-			retry := p.Retry
-			if retry == 0 || retry > s.max {
-				retry = s.max
-			}
-			switch {
-			case retry > last:
-				cnt = retry
-			case s.max > last:
-				cnt = s.max
-			default:
-				// even the largest legal count was refused
-				if int(s.max) >= largest {
-					return ps, viol("%s: Tread offset=%d count=%d (msize-24) answered with Rerror although no entry exceeds %d bytes", where, off, last, largest)
-				}
-				return ps, hErr("%s: msize-24=%d is smaller than the largest entry (%d): precondition not met by the generator", where, s.max, largest)
-			}
+		off, cnt, done, err := l.next()
+		if done || err != nil {
+			return l.ps, err
 		}
 		r, err := s.rc.Read(s.fid, off, cnt)
-		ps.reads++
 		if err != nil {
-			return ps, err
+			return l.ps, err
 		}
-		if r.Type == ref9p.Rerror {
-			ps.errors++
-			failed = append(failed, cnt)
-			continue
+		if done, err = l.feed(r); done || err != nil {
+			return l.ps, err
 		}
-		d := r.Data
-		if len(d) > int(cnt) {
-			return ps, viol("%s: Tread offset=%d count=%d returned %d bytes", where, off, cnt, len(d))
-		}
-		if len(d) == 0 {
-			if len(failed) > 0 {
-				return ps, viol("%s: Tread offset=%d count=%v answered with Rerror, then count=%d with a zero-length Rread: no entry was too large", where, off, failed, cnt)
-			}
-			var missing []string
-			for _, n := range expected {
-				if !seen[n] {
-					missing = append(missing, n)
-				}
-			}
-			if len(missing) > 0 {
-				return ps, viol("%s: zero-length Rread at offset=%d count=%d after %d of %d entries; never returned: %s", where, off, cnt, len(seen), len(expected), someNames(missing))
-			}
-			ps.complete = true
-			return ps, nil
-		}
-		recs, sizes, derr := splitRecords(d, s.dotu)
-		if derr != nil {
-			return ps, viol("%s: Tread offset=%d count=%d: payload of %d bytes is not a sequence of whole stat records (dotu=%v): %v", where, off, cnt, len(d), s.dotu, derr)
-		}
-		for _, fc := range failed {
-			if int(fc) >= sizes[0] {
-				return ps, viol("%s: Tread offset=%d count=%d answered with Rerror although the next entry %q is only %d bytes", where, off, fc, recs[0].Name, sizes[0])
-			}
-		}
-		failed = failed[:0]
-		for _, st := range recs {
-			if !exp[st.Name] {
-				return ps, viol("%s: Tread offset=%d count=%d returned an entry %q that os.ReadDir does not list", where, off, cnt, st.Name)
-			}
-			if seen[st.Name] {
-				return ps, viol("%s: Tread offset=%d count=%d returned entry %q a second time in one listing", where, off, cnt, st.Name)
-			}
-			seen[st.Name] = true
-		}
-		ps.nonEmpty++
-		ps.records += len(recs)
-		off += uint64(len(d))
 	}
 }
 
@@ -570,6 +682,9 @@ func RunCase(c *Case) (res result, err error) {
 	b, err := base()
 	if err != nil {
 		return res, hErr("%v", err)
+	}
+	if c.Kind == "conc" {
+		return runConcCase(c, b)
 	}
 	dir, err := os.MkdirTemp(b, "d")
 	if err != nil {
@@ -633,8 +748,8 @@ func largestOf(k int, ents []Ent, c *Case, dotu bool) int {
 		}
 	}
 	for _, p := range c.Passes {
-		if p.Mut != nil && p.Mut.Add != nil {
-			if n := recSize(k, *p.Mut.Add, dotu); n > l {
+		for _, e := range p.Mut.adds() {
+			if n := recSize(k, e, dotu); n > l {
 				l = n
 			}
 		}
@@ -795,13 +910,19 @@ func msizeClass(m uint32) string {
 	}
 }
 
-func shape(c *Case) string {
+func shapeOf(ents []Ent) string {
 	var sb strings.Builder
-	es := append([]Ent(nil), c.Ents...)
+	es := append([]Ent(nil), ents...)
 	sort.Slice(es, func(i, j int) bool { return es[i].Name < es[j].Name })
 	for _, e := range es {
 		fmt.Fprintf(&sb, "%d%s%d,", len(e.Name), e.Kind, len(e.Target))
 	}
+	return sb.String()
+}
+
+func shape(c *Case) string {
+	var sb strings.Builder
+	sb.WriteString(shapeOf(c.Ents))
 	if c.Bulk != nil {
 		fmt.Fprintf(&sb, "bulk%v", *c.Bulk)
 	}
@@ -809,9 +930,30 @@ func shape(c *Case) string {
 }
 
 func account(test string, c *Case, res result) {
+	if c.Kind == "conc" {
+		accountConc(test, c, res)
+		return
+	}
 	hx.Eval()
 	muts, restarts, small := 0, 0, 0
+	var state []Ent
+	simulate := false
 	for _, p := range c.Passes {
+		if p.Mut != nil && (p.Mut.Drop != nil || len(p.Mut.Adds) > 0 || p.Mut.AddBulk != nil) {
+			simulate = true
+		}
+	}
+	if simulate {
+		state = simMut(c.allEnts(), nil)
+	}
+	for i, p := range c.Passes {
+		if simulate {
+			after := simMut(state, p.Mut)
+			if p.Mut != nil && i > 0 && i <= len(res.passes) {
+				hx.Label(test + " same fid relists after reshape: " + reshapeClass(state, after))
+			}
+			state = after
+		}
 		if p.Mut != nil {
 			muts++
 		}
@@ -837,6 +979,9 @@ func account(test string, c *Case, res result) {
 		seq = append(seq, c.Kind, res.dotu, res.msize, shape(c))
 		for _, p := range c.Passes {
 			seq = append(seq, fmt.Sprint(p.Counts, p.Retry, p.MaxReads, p.Mut != nil))
+			if m := p.Mut; m != nil && (m.Drop != nil || len(m.Adds) > 0) {
+				seq = append(seq, fmt.Sprint(m.Drop), shapeOf(m.Adds))
+			}
 		}
 		hx.NonTrivial(seq...)
 	}
@@ -937,6 +1082,15 @@ func replayEnv(t *testing.T, e *hx.Envelope) {
 	if err := json.Unmarshal(e.Case, &c); err != nil {
 		t.Fatalf("bad case: %v", err)
 	}
+	if c.Kind == "conc" {
+		// schedule dependent: the same case is run until it fails, 25 times at most
+		for i := 0; i < 25; i++ {
+			if !execEnum(t, e.Test, &c) {
+				return
+			}
+		}
+		return
+	}
 	execEnum(t, e.Test, &c)
 }
 
@@ -969,6 +1123,11 @@ func genName(t *rapid.T, maxLen int, label string) string {
 	} else {
 		n = rapid.SampledFrom(ok).Draw(t, label+".lenclass")
 	}
+	return nameOfLen(t, n, label)
+}
+
+// nameOfLen: a drawn stem of up to 6 characters plus deterministic filler.
+func nameOfLen(t *rapid.T, n int, label string) string {
 	stemLen := n
 	if stemLen > 6 {
 		stemLen = 6
